@@ -36,9 +36,14 @@ func init() {
 		})(c)
 	}
 	Registry["C05"] = func(c *Ctx) {
-		c.R.Rule = "two halves. Schedules: scenario = (graph of <=4 nodes, non-empty set of failing targets (<=1 quick, <=2 thorough), keep-going or fail-fast, num_workers); real Walker + pool under every choice sequence with <= d deviations; keep-going executes exactly selected minus (failed and their descendants), every failure is in the completion map, with fail-fast no command starts after the failing node's routine recorded the failure. Histories: breadth-first search over histories of <= n operations from {make //p:x or //p:y fail (exit code, a failing statement that is not the command's last one, missing declared output), remove the failure, grog taint, grog build, grog build --fail-fast} with the REAL binary on the chain workspace x->y->z: dependants of a failed target are not executed, independent targets are, grog exits non-zero naming the failed targets, and a failed target leaves no cache entry (the follow-up build attempts it and its dependants again). Non-trivial = at least one command ran / a build executed some but not all targets."
+		c.R.Rule = "two halves. Schedules: scenario = (graph of <=4 nodes, non-empty set of failing targets (<=1 quick, <=2 thorough), keep-going or fail-fast, num_workers); real Walker + pool under every choice sequence with <= d deviations; keep-going executes exactly selected minus (failed and their descendants), every failure is in the completion map, with fail-fast no command starts after the failing node's routine recorded the failure. Histories: breadth-first search over histories of <= n operations from {make //p:x or //p:y fail (exit code, a failing statement that is not the command's last one, missing declared output), remove the failure, grog taint, grog build, grog build --fail-fast} with the REAL binary on the chain workspace x->y->z: dependants of a failed target are not executed, independent targets are, grog exits non-zero naming the failed targets, and a failed target leaves no cache entry (the follow-up build attempts it and its dependants again). Non-trivial = at least one command ran / a build executed some but not all targets. Failing re-run (real binary, both modes): a dependency that is a cache hit with lost blobs is re-run and exits 0 without its declared output while two dependants are cache misses: non-zero exit, neither dependant's command starts, and the follow-up build (condition restored) executes them and produces the from-scratch outputs."
 		c.R.Assume("commands of the schedule half are stubs; a stub does not start under a cancelled context (like exec.CommandContext)", "failures of the history half are driven by marker files outside the declared inputs (an external condition), so the failing and the succeeding attempt have the same cache key")
+		if os.Getenv("VERIF_PART") == "failing-rerun" { // development aid: this part alone
+			c05RerunFails(c)
+			return
+		}
 		walkCheckBudget("C05", []string{"C05:"}, 2, 3, 25, 400)(c)
+		c05RerunFails(c)
 		chainCheck("C05", []string{"C05:", "C04:build-hangs"}, 5, 6, func(e *chainEngine, thorough bool) {
 			e.universes = []chainState{{}, {Queue: true}}
 			e.ops = []chainOp{markOp("fail-y-exit"), markOp("fail-x-exit"), markOp("fail-y-noout"), markOp("fail-y-mid"), markOp("fail-d-nodir"), opTaintY, opBuild, opBuildFF}
@@ -46,12 +51,20 @@ func init() {
 				e.ops = append(e.ops, markOp("fail-y-timeout"), opEditY, markOp("w-self-destroy"), opEditFirst)
 			}
 		})(c)
+		// quick tier only: the failure that the command itself causes after the pre-run checks passed (in the alphabet
+		// of the thorough search above) on its own short alphabet, so that it is part of every quick run
+		if !c.Thorough {
+			chainCheck("C05", []string{"C05:"}, 4, 4, func(e *chainEngine, thorough bool) {
+				e.universes = []chainState{{}}
+				e.ops = []chainOp{markOp("w-self-destroy"), markOp("w-destroyed"), opBuild}
+			})(c)
+		}
 	}
 }
 
 func init() {
 	Registry["C18"] = func(c *Ctx) {
-		c.R.Rule = "Pool alone: the real TaskWorkerPool driven directly by 2-4 callers on 1-2 workers with no stop / an interrupt / a task that cancels when it ends / a direct Shutdown (plus early-clock-tick variants when callers wait in the queue), every schedule with <= 3 (quick; bound 2 complete) / 4 deviations: no panic, never more than num_workers tasks running, no task twice, Run returns its own task's result, at most 2*num_workers already accepted jobs (queue + one per worker) start after Shutdown returned. scenario = (graph of <=4 nodes, optional failing target, fail-fast, num_workers) plus one external cancel event (what SIGINT/SIGTERM trigger via SetupCommand's context) delivered by a dedicated goroutine at ANY scheduling point; real Walker + pool under every choice sequence with <= d deviations; oracles: Walk returns, no command starts after the cancel was delivered, an interrupt with unfinished targets surfaces as an error. Non-trivial = at least one command ran. Process half (real binary, real signals): a workspace with num_workers=1, five short targets and a directory-output target; a fault-free run of the instrumented binary logs every instance of every file-system call site from loading to shutdown; for every instance (quick: <= 3 per call site, alternating SIGINT/SIGTERM; thorough: every instance with both signals) the process sends the signal to itself exactly there and writes a marker into the command trace: grog must exit within 60 s, at most one queued command may still start after the marker, the exit status is non-zero when targets were unfinished, the cache holds no more target results than commands that finished and passes the offline audit (no result referencing a blob that was not stored), and an uninstrumented follow-up build acquires the (stale) lock, exits 0 and produces the outputs of a from-scratch build. Finally the running command itself interrupts grog (SIGINT/SIGTERM, with and without a shell that traps the signals): non-zero exit, dependant not started, no cache entry, and the shell does not survive (it would create a marker file 2 s later). A command that leaves a long-lived child behind when interrupted does not delay the next build. A build that is still waiting for the workspace lock exits non-zero on SIGINT / SIGTERM without starting a command. A dependency that is re-run inside its dependant's task (load_outputs=minimal, blobs lost) and interrupts grog is terminated like any other command. The signal is also delivered in the middle of a slow cache write (the goroutine at an fs.go call site stays there for 20 s while grog exits), and every follow-up is two builds: the second one after all outputs were deleted must restore the bytes of a from-scratch build."
+		c.R.Rule = "Pool alone: the real TaskWorkerPool driven directly by 2-4 callers on 1-2 workers with no stop / an interrupt / a task that cancels when it ends / a direct Shutdown (plus early-clock-tick variants when callers wait in the queue), every schedule with <= 3 (quick; bound 2 complete) / 4 deviations: no panic, never more than num_workers tasks running, no task twice, Run returns its own task's result, at most 2*num_workers already accepted jobs (queue + one per worker) start after Shutdown returned. scenario = (graph of <=4 nodes, optional failing target, fail-fast, num_workers) plus one external cancel event (what SIGINT/SIGTERM trigger via SetupCommand's context) delivered by a dedicated goroutine at ANY scheduling point; real Walker + pool under every choice sequence with <= d deviations; oracles: Walk returns, no command starts after the cancel was delivered, an interrupt with unfinished targets surfaces as an error. Non-trivial = at least one command ran. Process half (real binary, real signals): a workspace with num_workers=1, five short targets and a directory-output target; a fault-free run of the instrumented binary logs every instance of every file-system call site from loading to shutdown; for every instance (quick: <= 3 per call site, alternating SIGINT/SIGTERM; thorough: every instance with both signals) the process sends the signal to itself exactly there and writes a marker into the command trace: grog must exit within 60 s, at most one queued command may still start after the marker, the exit status is non-zero when targets were unfinished, the cache holds no more target results than commands that finished and passes the offline audit (no result referencing a blob that was not stored), and an uninstrumented follow-up build acquires the (stale) lock, exits 0 and produces the outputs of a from-scratch build. Finally the running command itself interrupts grog (SIGINT/SIGTERM, with and without a shell that traps the signals): non-zero exit, dependant not started, no cache entry, and the shell does not survive (it would create a marker file 2 s later). A command that leaves a long-lived child behind when interrupted does not delay the next build. A build that is still waiting for the workspace lock exits non-zero on SIGINT / SIGTERM without starting a command. A dependency that is re-run inside its dependant's task (load_outputs=minimal, blobs lost) and interrupts grog is terminated like any other command. The signal is also delivered in the middle of a slow cache write (the goroutine at an fs.go call site stays there for 20 s while grog exits), and every follow-up is two builds: the second one after all outputs were deleted must restore the bytes of a from-scratch build. `grog test`: a running test (it exits 1 when it runs to its end) interrupts grog with SIGINT / SIGTERM: non-zero exit, not reported as passed, no cache entry, and the next `grog test` runs it again."
 		c.R.Assume("the signal is modelled as cancellation of the root context (console.SetupCommand does exactly that on SIGINT/SIGTERM)", "commands are stubs that, like exec.CommandContext, do not start under a cancelled context and are killed when it is cancelled")
 		walkCheckBudget("C18", []string{"C18:", "C04:walk-never-returns", "C04:panic"}, 2, 3, 35, 400)(c)
 		// the pool alone: after Shutdown has returned at most the already accepted jobs (queue + one per worker) may still start
@@ -211,4 +224,95 @@ func c03WorkerBound(c *Ctx) {
 		}
 	}
 	wg.Wait()
+}
+
+// c05RerunFails: failure containment where the failing execution is a RE-RUN: a dependency is a cache hit whose blobs
+// are lost, two dependants are cache misses, and the dependency's command now exits 0 without creating its declared
+// output (an external condition, not an input). In both load_outputs modes: the build exits non-zero, neither
+// dependant's command starts, and nothing is cached for the three of them — once the condition is back, the next build
+// executes all three and produces the from-scratch outputs.
+func c05RerunFails(c *Ctx) {
+	grog, err := vc.BuildGrog("grog", nil)
+	if err != nil {
+		c.R.BrokenCheck("%v", err)
+		return
+	}
+	base, cleanup := scratchBase(c, "c05rerun")
+	defer cleanup()
+	end := "\necho \"end $GROG_TARGET\" >> \"$VTRACE\""
+	mk := func(v string) *hist.Source {
+		s := &hist.Source{Files: map[string]hist.File{"t/d.in": {Content: "d"}, "t/a.in": {Content: v}, "t/b.in": {Content: v}}, Toml: "num_workers = 2\n"}
+		s.Targets = append(s.Targets,
+			hist.Target{Pkg: "t", Name: "d", Inputs: []string{"d.in"}, Outputs: []string{"d.txt"}, Command: traceStart + "\nif [ ! -e \"$VMARK/d-makes-nothing\" ]; then printf made > d.txt; fi" + end},
+			hist.Target{Pkg: "t", Name: "a", Deps: []string{":d"}, Inputs: []string{"a.in"}, Outputs: []string{"a.txt"}, Command: traceStart + "\n(cat d.txt 2>/dev/null || printf MISSING; cat a.in) > a.txt" + end},
+			hist.Target{Pkg: "t", Name: "b", Deps: []string{":d"}, Inputs: []string{"b.in"}, Outputs: []string{"b.txt"}, Command: traceStart + "\n(cat d.txt 2>/dev/null || printf MISSING; cat b.in) > b.txt" + end})
+		return s
+	}
+	for _, mode := range []string{"minimal", "all"} {
+		box, err := hist.NewBox(base)
+		if err != nil {
+			c.R.BrokenCheck("%v", err)
+			return
+		}
+		marks := filepath.Join(box.Dir, "marks")
+		os.MkdirAll(marks, 0o755)
+		env := map[string]string{"VMARK": marks}
+		s1, s2 := mk("v1"), mk("v2")
+		s1.Materialize(box.WS(), nil)
+		args := []string{"build", "//...", "--load-outputs=" + mode}
+		if r := box.Run(grog, hist.RunOpts{Args: args, Env: env}); r.Exit != 0 {
+			c.R.BrokenCheck("failing re-run: preparation build failed: %s", tail(r.Output, 300))
+			box.Remove()
+			return
+		}
+		os.RemoveAll(filepath.Join(box.CacheDir(), "cas"))
+		os.Remove(filepath.Join(box.WS(), "t/d.txt"))
+		os.WriteFile(filepath.Join(marks, "d-makes-nothing"), nil, 0o644)
+		s2.Materialize(box.WS(), s1)
+		history := []string{"build", "lose every blob, delete d.txt, //t:d's command stops creating d.txt (exit 0), edit the inputs of a and b", "build"}
+		r2 := box.Run(grog, hist.RunOpts{Args: args, Env: env, Ceiling: 60e9})
+		replay := map[string]any{"history": history, "load_outputs": mode, "exit": r2.Exit, "trace": r2.Trace, "grog_output_tail": tail(r2.Output, 700)}
+		vio := func(sig, format string, a ...any) {
+			c.R.Violate(vc.Violation{Sig: sig, Detail: fmt.Sprintf("load_outputs=%s, history %v: ", mode, history) + fmt.Sprintf(format, a...), Replay: replay})
+		}
+		if r2.TimedOut {
+			vio("C04:build-hangs", "the build did not end within 60 s")
+			box.Remove()
+			continue
+		}
+		started := strings.Join(r2.Started(), " ")
+		for _, t := range []string{"//t:a", "//t:b"} {
+			if strings.Contains(started, t) {
+				vio("C05:dependant-of-failed-target-executed:"+t, "%s was executed although its dependency //t:d did not produce its declared output in this build; trace %v", t, r2.Trace)
+			}
+		}
+		if r2.Exit == 0 {
+			vio("C05:build-succeeds-although-a-target-failed", "grog exited 0 although //t:d did not produce its declared output; trace %v", r2.Trace)
+		}
+		// the condition is back: everything that failed or was skipped is attempted again
+		os.Remove(filepath.Join(marks, "d-makes-nothing"))
+		history = append(history, "//t:d's command creates d.txt again", "build")
+		r3 := box.Run(grog, hist.RunOpts{Args: args, Env: env, Ceiling: 60e9})
+		replay["follow_up_trace"] = r3.Trace
+		replay["follow_up_output_tail"] = tail(r3.Output, 500)
+		started3 := strings.Join(r3.Started(), " ")
+		for _, t := range []string{"//t:a", "//t:b"} {
+			if !strings.Contains(started3, t) {
+				vio("C05:failed-target-not-attempted-again:"+t, "%s was not executed by the follow-up build although it did not succeed in the failed build (a result was cached for it); follow-up trace %v", t, r3.Trace)
+			}
+		}
+		if r3.Exit != 0 {
+			vio("C05:follow-up-build-fails", "the follow-up build exited %d: %s", r3.Exit, tail(r3.Output, 300))
+		} else {
+			for p, want := range map[string]string{"t/d.txt": "made", "t/a.txt": "madev2", "t/b.txt": "madev2"} {
+				if b, _ := os.ReadFile(filepath.Join(box.WS(), p)); string(b) != want {
+					vio("C05:follow-up-build-wrong-output", "%s is %q after the follow-up build, a from-scratch build gives %q", p, b, want)
+				}
+			}
+		}
+		c.R.AddCounts(3, 1, 3, 3)
+		c.R.Outcome(fmt.Sprintf("failing-rerun|%s|exit=%d|%s|%s", mode, r2.Exit, started, started3))
+		c.R.Nontrivial("failing-rerun|" + mode)
+		box.Remove()
+	}
 }
